@@ -343,6 +343,7 @@ class World:
         self.harness_channel = self.harness_conn.channel()
         self.broker.tap("asl_workflow_engine", "#", self._on_notification)
         self.after_step = []        # monitors: fn(world, label)
+        self.engine_exceptions = [] # exceptions that escaped an engine callback
 
     # ------------------------------------------------------------ plumbing
     def _on_notification(self, msg):
@@ -479,6 +480,13 @@ class World:
                 b.log("advance", None)
         except simbroker.Crash as c:
             crashed = c
+        except Exception as e:
+            # an exception escaping an engine callback: pika/asyncio would log it and carry on
+            import traceback
+            tb = traceback.extract_tb(e.__traceback__)
+            where = next((f for f in reversed(tb) if "/asl_workflow_engine/" in f.filename or "/statelint/" in f.filename), tb[-1])
+            self.engine_exceptions.append({"type": type(e).__name__, "message": str(e)[:300], "where": "%s:%s" % (where.name, where.lineno),
+                                           "label": label, "t": b.clock.now})
         finally:
             b.ctx = None
         if crashed is not None:
